@@ -3,6 +3,9 @@ mod session;
 
 pub use session::{Connection, Session};
 
+#[cfg(feature = "verif")]
+pub use session::verif;
+
 use crate::{
     Properties, QoS, ResourceError, Retain,
     publication::{OwnedResponseTarget, Publication, ResponseTarget},
